@@ -138,6 +138,10 @@ func (z *Decimal) scan(r io.ByteScanner, base int) (f *Decimal, b int, err error
 	} else {
 		z.Mul(z, p.pow2(uint64(exp2)))
 	}
+	if z.form != finite {
+		// the binary exponent moved the value out of the representable range
+		return nil, b, fmt.Errorf("exponent overflow")
+	}
 
 	return
 }
